@@ -21,6 +21,27 @@
 (*               JacT(mid -> ins) after JacT(outs -> mid) = JacT(outs->ins)*)
 (* and on every value scenario: DiagT/StackT/AggT against independent      *)
 (* matrix formulations (DiagIsDiagonal, StackRows, AggIsWJ).               *)
+(*                                                                         *)
+(* Element type.  Every transform returns values of the element type its   *)
+(* inputs determine (OutDtype: the common dtype dt of keys and values) -   *)
+(* checked on every replayed / recorded result.                            *)
+(*                                                                         *)
+(* PRECISION presentation (float64).  Small integers survive a round trip  *)
+(* through float32, so an integer scenario cannot see one.  Every scenario *)
+(* therefore carries a second integer input K (pattern 1..3, different per *)
+(* key / row / entry) and the specified result on it; all maps are LINEAR  *)
+(* in the dictionary they receive (ValuesLinear, Linear), hence            *)
+(*      T(v + 2^-29 K) = T(v) + 2^-29 T(K)                                 *)
+(* and both sides are exact in float64 (multiples of 2^-29 below 2^20)     *)
+(* while v + 2^-29 K needs more than the 24 mantissa bits of float32.  The *)
+(* harness realises the integers v as v + 2^-29 K and compares with        *)
+(* EQUALITY; the trace driver logs the two integer parts of every float64  *)
+(* value.  For Grad/Jac the second batch of cotangents (CtB) is the K.     *)
+(*                                                                         *)
+(* Argument presentations: ArgForms lists, per constructor argument, the   *)
+(* forms (list, tuple, set, dict view, iterator, generator) in which the   *)
+(* harness presents the key collections; the expected values do not depend *)
+(* on them.                                                                *)
 (***************************************************************************)
 EXTENDS Programs, TLC, Json
 
@@ -39,6 +60,25 @@ ShapeMenu(n) ==
       [] n = 6 -> << <<6>>, <<2, 3>>, <<3, 2>>, <<1, 2, 3>>, <<3, 1, 2, 1>> >>
       [] n = 8 -> << <<8>>, <<2, 4>>, <<2, 2, 2>>, <<2, 1, 2, 2>> >>
       [] OTHER -> << <<n>> >>
+
+\* ------------------------------------------------------------------ argument presentations / element type
+\* Forms in which a key collection is handed to a constructor declared Iterable[Tensor].  "iter" and
+\* "gen" are one-shot.  "set" only where the enumeration order is not part of the argument.  The
+\* key_order of Aggregate is traversed three times by the constructor as written (one-shot
+\* presentations make it raise ValueError today: recorded as an observation, not presented).
+AllForms == {"list", "tuple", "set", "dictkeys", "iter", "gen"}
+ArgForms == << [op |-> "init", arg |-> "values", forms |-> AllForms],
+               [op |-> "select", arg |-> "keys", forms |-> AllForms],
+               [op |-> "select", arg |-> "required_keys", forms |-> AllForms],
+               [op |-> "diag", arg |-> "considered", forms |-> AllForms \ {"set"}],
+               [op |-> "grad", arg |-> "outputs", forms |-> AllForms],
+               [op |-> "grad", arg |-> "inputs", forms |-> AllForms],
+               [op |-> "jac", arg |-> "outputs", forms |-> AllForms],
+               [op |-> "jac", arg |-> "inputs", forms |-> AllForms],
+               [op |-> "agg", arg |-> "key_order", forms |-> {"list", "tuple", "dictkeys"}],
+               [op |-> "stack", arg |-> "transforms", forms |-> {"list", "tuple"}] >>
+\* the element type of every value of the result, given the common element type of keys and input values
+OutDtype(kind, dt) == dt
 
 \* ------------------------------------------------------------------ Grad and Jac
 \* g: function output node -> cotangent vector; result: function input node -> gradient vector
@@ -151,23 +191,35 @@ JVal(k, r, e) == ((k * 3 + r * 5 + e * 7 + r * e * k) % 9) - 4
 JDict(sizes, m) == [k \in DOMAIN sizes |-> [r \in 1..m |-> [e \in 1..sizes[k] |-> JVal(k, r, e)]]]
 WVec(m) == [r \in 1..m |-> 2 * r - 3]                                              \* -1, 1, 3: distinct, none is 1 for m = 1
 MemberVal(i, k, e) == GVal(k, e) + 20 * i
+\* the K patterns of the precision presentation: 1..3, different per key / row (member) / entry
+KVal(k, e) == 1 + ((k + e) % 3)
+KDict(sizes, K) == [k \in K |-> [e \in 1..sizes[k] |-> KVal(k, e)]]
+KJDict(sizes, m) == [k \in DOMAIN sizes |-> [r \in 1..m |-> [e \in 1..sizes[k] |-> KVal(k + r, e)]]]
+Members(F(_, _, _), ks, sizes) == [i \in DOMAIN ks |-> [k \in ks[i] |-> [e \in 1..sizes[k] |-> F(i, k, e)]]]
+MemberK(i, k, e) == KVal(k + i, e)
 
 ValScenarios(sizes) ==
     LET n == Len(sizes)
         K == 1..n
     IN  {[kind |-> "init", sizes |-> sizes, expected |-> InitT(sizes)]}
         \cup {[kind |-> "select", sizes |-> sizes, K |-> S, input |-> GDict(sizes, K),
-               expected |-> SelectT(GDict(sizes, K), S)] : S \in SUBSET K}
+               expected |-> SelectT(GDict(sizes, K), S),
+               inputK |-> KDict(sizes, K), expectedK |-> SelectT(KDict(sizes, K), S)] : S \in SUBSET K}
         \cup {[kind |-> "diag", sizes |-> sizes, order |-> o, input |-> GDict(sizes, K),
-               expected |-> DiagT(o, sizes, GDict(sizes, K))] : o \in PermSeqs(K)}
+               expected |-> DiagT(o, sizes, GDict(sizes, K)),
+               inputK |-> KDict(sizes, K), expectedK |-> DiagT(o, sizes, KDict(sizes, K))] : o \in PermSeqs(K)}
         \cup {[kind |-> "agg", sizes |-> sizes, order |-> o, m |-> m, w |-> WVec(m), input |-> JDict(sizes, m),
                united |-> UniteV(JDict(sizes, m), o, m),
                expected |-> AggT(o, sizes, JDict(sizes, m), WVec(m)),
-               expectedSum |-> AggT(o, sizes, JDict(sizes, m), Ones(m))] : o \in PermSeqs(K), m \in 1..3}
-        \cup {[kind |-> "stack", sizes |-> sizes, members |-> mem,
-               expected |-> StackT(mem, sizes)] :
-                 mem \in {[i \in DOMAIN ks |-> [k \in ks[i] |-> [e \in 1..sizes[k] |-> MemberVal(i, k, e)]]] :
-                            ks \in UNION {[1..c -> SUBSET K] : c \in 1..(IF n = 3 THEN 2 ELSE 3)}}}
+               expectedSum |-> AggT(o, sizes, JDict(sizes, m), Ones(m)),
+               inputK |-> KJDict(sizes, m),
+               expectedK |-> AggT(o, sizes, KJDict(sizes, m), WVec(m)),
+               expectedSumK |-> AggT(o, sizes, KJDict(sizes, m), Ones(m))] : o \in PermSeqs(K), m \in 1..3}
+        \cup {[kind |-> "stack", sizes |-> sizes, members |-> Members(MemberVal, ks, sizes),
+               expected |-> StackT(Members(MemberVal, ks, sizes), sizes),
+               membersK |-> Members(MemberK, ks, sizes),
+               expectedK |-> StackT(Members(MemberK, ks, sizes), sizes)] :
+                 ks \in UNION {[1..c -> SUBSET K] : c \in 1..(IF n = 3 THEN 2 ELSE 3)}}
 
 VStart == /\ phase = "vstart"
           /\ \E s \in SizeSeqs : scn' = [kind |-> "sizes", sizes |-> s]
@@ -228,6 +280,21 @@ StackRows == (phase = "vscn" /\ scn.kind = "stack") =>
 AggIsWJ == (phase = "vscn" /\ scn.kind = "agg") =>
     \A k \in DOMAIN scn.expected : scn.expected[k] = VecMat(scn.w, scn.input[k], scn.sizes[k])
 
+\* every value transform is linear in the dictionary it receives: T(2 v - 3 K) = 2 T(v) - 3 T(K).  This is
+\* what makes the precision presentation exact: T(v + 2^-29 K) = T(v) + 2^-29 T(K)
+CombV(a, b) == VSub(VScale(2, a), VScale(3, b))
+CombG(A, B) == [k \in DOMAIN A |-> CombV(A[k], B[k])]
+CombJ(A, B) == [k \in DOMAIN A |-> [r \in DOMAIN A[k] |-> CombV(A[k][r], B[k][r])]]
+ValuesLinear == (phase = "vscn") =>
+    CASE scn.kind = "select" -> SelectT(CombG(scn.input, scn.inputK), scn.K) = CombG(scn.expected, scn.expectedK)
+      [] scn.kind = "diag"   -> DiagT(scn.order, scn.sizes, CombG(scn.input, scn.inputK)) = CombJ(scn.expected, scn.expectedK)
+      [] scn.kind = "agg"    -> /\ AggT(scn.order, scn.sizes, CombJ(scn.input, scn.inputK), scn.w) = CombG(scn.expected, scn.expectedK)
+                                /\ AggT(scn.order, scn.sizes, CombJ(scn.input, scn.inputK), Ones(scn.m))
+                                     = CombG(scn.expectedSum, scn.expectedSumK)
+      [] scn.kind = "stack"  -> StackT([i \in DOMAIN scn.members |-> CombG(scn.members[i], scn.membersK[i])], scn.sizes)
+                                  = CombJ(scn.expected, scn.expectedK)
+      [] OTHER               -> TRUE
+
 \* ------------------------------------------------------------------ export
 CallHash == SumSeq(Vals(P)[Len(P)]) + 3 * Len(P) + 7 * call.m
             + 13 * SumSeq([i \in 1..Len(P) |-> IF P[i].op = "leaf" THEN P[i].size + i
@@ -247,5 +314,5 @@ ValHash == SumSeq(scn.sizes) + 5 * Len(scn.sizes)
            + (IF scn.kind = "select" THEN 3 * Cardinality(scn.K) + SumSeq([k \in 1..3 |-> IF k \in scn.K THEN k * k ELSE 0]) ELSE 0)
            + (IF scn.kind = "stack" THEN SumSeq([i \in DOMAIN scn.members |-> i * (1 + SumSeq([k \in 1..3 |-> IF k \in DOMAIN scn.members[i] THEN k * k ELSE 0]))]) ELSE 0)
 ExportVal == (phase = "vscn" /\ (ValHash % ValMod) = ValPick) => PrintT(<<"VAL", ToJson(scn)>>)
-ExportMenu == (phase = "vstart") => PrintT(<<"MENU", ToJson([menu |-> [n \in 1..8 |-> ShapeMenu(n)]])>>)
+ExportMenu == (phase = "vstart") => PrintT(<<"MENU", ToJson([menu |-> [n \in 1..8 |-> ShapeMenu(n)], forms |-> ArgForms])>>)
 =============================================================================
